@@ -1,6 +1,7 @@
 /* proof units for /repo/lbuf.c - the real file, included verbatim */
 #include "lbuf.c"
 #define STRLEN_HOOK
+#define MEMCPY_HOOK
 #ifdef UNIT_LBUF_WR
 #define MEMCPY_HAVOC_ALL
 #endif
